@@ -477,6 +477,12 @@ func (env *Env) evalBin(e *SBin) (Val, error) {
 	if r.Typ == types.Typ[types.UntypedNil] && l.T.Sort != SInt {
 		r.T = env.te().Zero(l.Typ)
 	}
+	// a concrete value compared with an interface value is boxed first (as Go does)
+	if l.T.Sort == SIface && r.T.Sort != SIface && r.Typ != nil && (e.Op == "==" || e.Op == "!=") {
+		r.T = Term{fmt.Sprintf("(mkIface %d %s)", env.te().TypeTag(r.Typ), env.te().Box(r.Typ, r.T).S), SIface}
+	} else if r.T.Sort == SIface && l.T.Sort != SIface && l.Typ != nil && (e.Op == "==" || e.Op == "!=") {
+		l.T = Term{fmt.Sprintf("(mkIface %d %s)", env.te().TypeTag(l.Typ), env.te().Box(l.Typ, l.T).S), SIface}
+	}
 	switch e.Op {
 	case "==", "!=":
 		if l.T.Sort != r.T.Sort {
@@ -721,7 +727,7 @@ func (env *Env) evalSlice(e *SSliceE) (Val, error) {
 			hi = v.T
 		}
 		env.te().strSub()
-		return Val{T: Term{app("str.sub", x.T.S, lo.S, hi.S), SStr}, Typ: x.Typ}, nil
+		return Val{T: Term{app("s_sub", x.T.S, lo.S, hi.S), SStr}, Typ: x.Typ}, nil
 	}
 	if x.T.Sort == SSlice {
 		hi = sLen(x.T)
@@ -942,6 +948,17 @@ func (env *Env) evalCall(e *SCall) (Val, error) {
 								return Val{}, err
 							}
 							return Val{T: v.T, Typ: tn.Type()}, nil
+						}
+						if sf, ok := sess.specs.Funcs[sel.Sel]; ok {
+							var args []Val
+							for _, a := range e.Args {
+								v, err := env.eval(a)
+								if err != nil {
+									return Val{}, err
+								}
+								args = append(args, v)
+							}
+							return env.applySpecFunc(sf, args)
 						}
 						return Val{}, fmt.Errorf("%s.%s is not a function", id.Name, sel.Sel)
 					}
